@@ -1170,6 +1170,19 @@ func (n *MacroNode) CallMacro(w io.Writer, ctx *RenderContext, args ...interface
 		macroCtx.macros[sibling.name] = sibling
 	}
 
+	// Defaults are evaluated in a context of their own: they see the caller's
+	// variables, and the macros of the defining template like the body does, so
+	// that a default which calls a sibling macro works however this macro was
+	// reached (directly, through import or through from-import)
+	defaultsCtx := NewRenderContext(ctx.env, nil, ctx.engine)
+	defaultsCtx.parent = ctx
+	defaultsCtx.sandboxed = ctx.sandboxed
+	defaultsCtx.lastLoadedTemplate = ctx.lastLoadedTemplate
+	defer defaultsCtx.Release()
+	for _, sibling := range n.siblings {
+		defaultsCtx.macros[sibling.name] = sibling
+	}
+
 	// Set the parameters
 	for i, param := range n.params {
 		if i < len(args) {
@@ -1177,7 +1190,7 @@ func (n *MacroNode) CallMacro(w io.Writer, ctx *RenderContext, args ...interface
 			macroCtx.SetVariable(param, args[i])
 		} else if defaultVal, ok := n.defaults[param]; ok {
 			// Otherwise, use the default value if available
-			value, err := ctx.EvaluateExpression(defaultVal)
+			value, err := defaultsCtx.EvaluateExpression(defaultVal)
 			if err != nil {
 				return err
 			}
